@@ -1241,6 +1241,126 @@ class Norm:
                 t = ("rest", t)
         return t
 
+    def _block_term(self, e):
+        """term of a block expression (see _t)"""
+        if T.is_template_block(e):
+            return self._tpl(e, "quote")
+        b = e["b"]
+        early = []
+        effs = []
+        let_tries = []
+        for st in b["stmts"]:
+            sk = st.get("k")
+            if sk == "SLet" and "init" in st and "els" not in st:
+                si = strip(st["init"])
+                if si.get("k") == "Match" and str(si.get("src", "")).startswith("TryDesugar"):
+                    let_tries.append(st["init"])
+            if sk in ("SSemi", "SExpr"):
+                inner = strip(st["e"])
+                handled = False
+                if inner.get("k") == "If":
+                    tt = self._t(inner["then"])
+                    if "else" not in inner and tt[0] == "early" and _is_unit(tt[2]) and tt[1] and all(_diverges(v) for _c, v in tt[1]):
+                        # if c1 { if c2 { return v } }   is the guard clause   if c1 && c2 { return v }
+                        handled = True
+                        c1 = self._t(inner["cond"])
+                        for c2, v in tt[1]:
+                            early.append((("op", "&&", [c1, c2]), v))
+                    elif _diverges(tt):
+                        handled = True
+                        early.append((self._t(inner["cond"]), tt))
+                        if "else" in inner:
+                            et = self._t(inner["else"])
+                            if _diverges(et):
+                                early.append((("op", "Not", [self._t(inner["cond"])]), et))
+                            elif et != ("lit", "()"):
+                                effs.append(et)
+                elif inner.get("k") == "Match" and inner.get("src") == "Normal":
+                    mt = self._t(inner)
+                    if mt[0] == "match" and any(_diverges(bt) for _p, _g, bt in mt[2]):
+                        handled = True
+                        early.append((("lit", "match"), mt))
+                if not handled and inner.get("k") in ("Call", "MethodCall", "Match", "If", "Loop", "Block") and inner.get("ty") != "!" \
+                        and not self._is_mut_local_effect(inner):
+                    et = self._t(inner)
+                    if not _is_unit(et) and not _diverges(et):
+                        effs.append(et)
+            elif sk == "SLet" and "init" in st and "els" not in st and _may_diverge(st["init"]):
+                # let x = match y { Some(v) => v, None => return d };   is a guard clause of the block, then x = the value
+                it = self._t(st["init"])
+                if it[0] == "early" and it[1] and all(_diverges(v) for _c, v in it[1]) and not any(c == ("lit", "match") for c, _v in it[1]):
+                    early.extend(it[1])
+                    self._strip_early.add(id(st["init"]))
+            elif sk == "SLet" and "els" in st:
+                lc = _let(pat_repr(st["pat"]), self._t(st["init"]))
+                if lc[0] == "iflet":
+                    lc = ("iflet-not", lc[1], lc[2])
+                elif lc[0] == "op" and lc[1] == "Not":
+                    lc = lc[2][0]
+                else:
+                    lc = ("op", "Not", [lc])
+                early.append((lc, self._t({"k": "Block", "b": st["els"], "ty": "!x"})))
+        if "expr" in b:
+            tail = self._t(b["expr"])
+        else:
+            tail = ("lit", "()")
+            if b["stmts"]:
+                last = b["stmts"][-1]
+                if last.get("k") in ("SSemi", "SExpr"):
+                    inner = strip(last["e"])
+                    if inner.get("k") in ("Ret", "Break", "Continue"):
+                        tail = self._t(inner)
+                    elif inner.get("ty") == "!":
+                        tail = ("opaque", "diverge")
+        if tail == ("lit", "()") and e.get("ty") == "!":
+            tail = ("opaque", "diverge")
+        if id(e) in self._ret_blocks and tail[0] == "call" and tail[1] == "Option::map" and len(tail[2]) == 2 and tail[2][1][0] == "closure" and tail[2][1][2] == 1:
+            tail = ("call", "Some", [_apply(tail[2][1], ("try", tail[2][0]))])      # opt.map(|v| f(v)) as the result of the function  ==  Some(f(opt?))
+        if effs and tail[0] == "if" and (_is_unit(tail[3]) or _is_unit(tail[2])):
+            both = _found_flag_loops(effs + [tail])
+            if len(both) < len(effs) + 1:
+                effs, tail = both, ("lit", "()")
+        effs = _merge_extends(_found_flag_loops(effs))
+        if not early and len(effs) == 1 and effs[0][0] == "for" and id(e) in self._ret_blocks:
+            lp = effs[0]
+            if lp[2][0] == "early" and len(lp[2][1]) == 1 and lp[2][1][0][1][0] == "ret" and _is_unit(lp[2][2]):
+                # for x in it { if c(x) { return r(x) } } tail   ==   match it.find(c) { Some(x) => r(x), None => tail }
+                base, el = _elem_of(lp[1])
+                old_el = ("elem", lp[1])
+                sub = (lambda n: el if n == old_el else None)
+                return ("call", "search", [base, rewrite(lp[2][1][0][0], sub), rewrite(lp[2][1][0][1][1], sub), tail])
+        if effs:
+            # `{ f(x); }` is `f(x)` in every context that accepts the unit block
+            tail = effs[0] if len(effs) == 1 and tail == ("lit", "()") and effs[0][0] in ("call", "for", "if", "match", "seq") else ("seq", effs, tail)
+        if not early and id(e) in self._ret_blocks:
+            tail = _opt_chain(tail)
+        if early:
+            early2 = []
+            for c, v in early:
+                for c2 in _split_or(c):
+                    early2.append((c2, v))
+            # if set.contains(x) { return }  set.insert(x); ..   ==   if !set.insert(x) { return } ..
+            lc = early2[-1][0]
+            first = tail[1][0] if tail[0] == "seq" and tail[1] else tail if tail[0] == "call" else None
+            if lc[0] == "call" and lc[1] in ("HashSet::contains", "BTreeSet::contains") and first is not None and first[0] == "call" \
+                    and first[1] == lc[1].replace("contains", "insert") and first[2] == lc[2]:
+                early2[-1] = (("op", "Not", [first]), early2[-1][1])
+                if tail[0] == "seq":
+                    rest = tail[1][1:]
+                    tail = ("seq", rest, tail[2]) if len(rest) > 1 or (rest and tail[2] != ("lit", "()")) else rest[0] if rest else tail[2]
+                else:
+                    tail = ("lit", "()")
+            if id(e) in self._ret_blocks:
+                return _ret_chain(early2, tail)      # guard clauses of the function body are an if / else chain
+            early2, tail = _guards_to_try(early2, tail)      # `else { return Err(e) }` / `else { return None }` is `?` at any depth
+            if not early2:
+                return tail
+            if id(e) in self._loop_blocks and all(v == ("continue",) and c != ("lit", "match") for c, v in early2):
+                # `if c { continue }` filters of a loop body are an if / else chain around the rest of the body
+                return _unreturn(("early", [(c, ("ret", ("lit", "()"))) for c, _v in early2], tail))
+            return ("early", early2, tail)
+        return tail
+
     def _t(self, e):
         if not isinstance(e, dict):
             return ("opaque", "none")
@@ -1442,118 +1562,19 @@ class Norm:
                 args = []   # the message text is not part of the term
             return ("call", name, [recv] + args)
         if k == "Block":
-            if T.is_template_block(e):
-                return self._tpl(e, "quote")
-            b = e["b"]
-            early = []
-            effs = []
-            for st in b["stmts"]:
-                sk = st.get("k")
-                if sk in ("SSemi", "SExpr"):
-                    inner = strip(st["e"])
-                    handled = False
-                    if inner.get("k") == "If":
-                        tt = self._t(inner["then"])
-                        if "else" not in inner and tt[0] == "early" and _is_unit(tt[2]) and tt[1] and all(_diverges(v) for _c, v in tt[1]):
-                            # if c1 { if c2 { return v } }   is the guard clause   if c1 && c2 { return v }
-                            handled = True
-                            c1 = self._t(inner["cond"])
-                            for c2, v in tt[1]:
-                                early.append((("op", "&&", [c1, c2]), v))
-                        elif _diverges(tt):
-                            handled = True
-                            early.append((self._t(inner["cond"]), tt))
-                            if "else" in inner:
-                                et = self._t(inner["else"])
-                                if _diverges(et):
-                                    early.append((("op", "Not", [self._t(inner["cond"])]), et))
-                                elif et != ("lit", "()"):
-                                    effs.append(et)
-                    elif inner.get("k") == "Match" and inner.get("src") == "Normal":
-                        mt = self._t(inner)
-                        if mt[0] == "match" and any(_diverges(bt) for _p, _g, bt in mt[2]):
-                            handled = True
-                            early.append((("lit", "match"), mt))
-                    if not handled and inner.get("k") in ("Call", "MethodCall", "Match", "If", "Loop", "Block") and inner.get("ty") != "!" \
-                            and not self._is_mut_local_effect(inner):
-                        et = self._t(inner)
-                        if not _is_unit(et) and not _diverges(et):
-                            effs.append(et)
-                elif sk == "SLet" and "init" in st and "els" not in st and _may_diverge(st["init"]):
-                    # let x = match y { Some(v) => v, None => return d };   is a guard clause of the block, then x = the value
-                    it = self._t(st["init"])
-                    if it[0] == "early" and it[1] and all(_diverges(v) for _c, v in it[1]) and not any(c == ("lit", "match") for c, _v in it[1]):
-                        early.extend(it[1])
-                        self._strip_early.add(id(st["init"]))
-                elif sk == "SLet" and "els" in st:
-                    lc = _let(pat_repr(st["pat"]), self._t(st["init"]))
-                    if lc[0] == "iflet":
-                        lc = ("iflet-not", lc[1], lc[2])
-                    elif lc[0] == "op" and lc[1] == "Not":
-                        lc = lc[2][0]
-                    else:
-                        lc = ("op", "Not", [lc])
-                    early.append((lc, self._t({"k": "Block", "b": st["els"], "ty": "!x"})))
-            if "expr" in b:
-                tail = self._t(b["expr"])
-            else:
-                tail = ("lit", "()")
-                if b["stmts"]:
-                    last = b["stmts"][-1]
-                    if last.get("k") in ("SSemi", "SExpr"):
-                        inner = strip(last["e"])
-                        if inner.get("k") in ("Ret", "Break", "Continue"):
-                            tail = self._t(inner)
-                        elif inner.get("ty") == "!":
-                            tail = ("opaque", "diverge")
-            if tail == ("lit", "()") and e.get("ty") == "!":
-                tail = ("opaque", "diverge")
-            if id(e) in self._ret_blocks and tail[0] == "call" and tail[1] == "Option::map" and len(tail[2]) == 2 and tail[2][1][0] == "closure" and tail[2][1][2] == 1:
-                tail = ("call", "Some", [_apply(tail[2][1], ("try", tail[2][0]))])      # opt.map(|v| f(v)) as the result of the function  ==  Some(f(opt?))
-            if effs and tail[0] == "if" and (_is_unit(tail[3]) or _is_unit(tail[2])):
-                both = _found_flag_loops(effs + [tail])
-                if len(both) < len(effs) + 1:
-                    effs, tail = both, ("lit", "()")
-            effs = _merge_extends(_found_flag_loops(effs))
-            if not early and len(effs) == 1 and effs[0][0] == "for" and id(e) in self._ret_blocks:
-                lp = effs[0]
-                if lp[2][0] == "early" and len(lp[2][1]) == 1 and lp[2][1][0][1][0] == "ret" and _is_unit(lp[2][2]):
-                    # for x in it { if c(x) { return r(x) } } tail   ==   match it.find(c) { Some(x) => r(x), None => tail }
-                    base, el = _elem_of(lp[1])
-                    old_el = ("elem", lp[1])
-                    sub = (lambda n: el if n == old_el else None)
-                    return ("call", "search", [base, rewrite(lp[2][1][0][0], sub), rewrite(lp[2][1][0][1][1], sub), tail])
-            if effs:
-                # `{ f(x); }` is `f(x)` in every context that accepts the unit block
-                tail = effs[0] if len(effs) == 1 and tail == ("lit", "()") and effs[0][0] in ("call", "for", "if", "match", "seq") else ("seq", effs, tail)
-            if not early and id(e) in self._ret_blocks:
-                tail = _opt_chain(tail)
-            if early:
-                early2 = []
-                for c, v in early:
-                    for c2 in _split_or(c):
-                        early2.append((c2, v))
-                # if set.contains(x) { return }  set.insert(x); ..   ==   if !set.insert(x) { return } ..
-                lc = early2[-1][0]
-                first = tail[1][0] if tail[0] == "seq" and tail[1] else tail if tail[0] == "call" else None
-                if lc[0] == "call" and lc[1] in ("HashSet::contains", "BTreeSet::contains") and first is not None and first[0] == "call" \
-                        and first[1] == lc[1].replace("contains", "insert") and first[2] == lc[2]:
-                    early2[-1] = (("op", "Not", [first]), early2[-1][1])
-                    if tail[0] == "seq":
-                        rest = tail[1][1:]
-                        tail = ("seq", rest, tail[2]) if len(rest) > 1 or (rest and tail[2] != ("lit", "()")) else rest[0] if rest else tail[2]
-                    else:
-                        tail = ("lit", "()")
-                if id(e) in self._ret_blocks:
-                    return _ret_chain(early2, tail)      # guard clauses of the function body are an if / else chain
-                early2, tail = _guards_to_try(early2, tail)      # `else { return Err(e) }` / `else { return None }` is `?` at any depth
-                if not early2:
-                    return tail
-                if id(e) in self._loop_blocks and all(v == ("continue",) and c != ("lit", "match") for c, v in early2):
-                    # `if c { continue }` filters of a loop body are an if / else chain around the rest of the body
-                    return _unreturn(("early", [(c, ("ret", ("lit", "()"))) for c, _v in early2], tail))
-                return ("early", early2, tail)
-            return tail
+            r = self._block_term(e)
+            # `let x = f()?;` leaves the block when f() fails even if x is never used afterwards (or only in an erased position)
+            pend = []
+            for st in e["b"]["stmts"]:
+                if st.get("k") == "SLet" and "init" in st and "els" not in st:
+                    si = strip(st["init"])
+                    if si.get("k") == "Match" and str(si.get("src", "")).startswith("TryDesugar"):
+                        pt = self._t(st["init"])
+                        if pt[0] == "try" and not any(x == pt or x == pt[1] for x in subterms(r)) and pt not in pend:
+                            pend.append(pt)
+            if pend:
+                r = ("seq", pend + (list(r[1]) if r[0] == "seq" else []), r[2] if r[0] == "seq" else r)
+            return r
         if k == "Match":
             src = e["src"]
             if src.startswith("TryDesugar"):
